@@ -6,6 +6,10 @@
 package evm
 
 import (
+	"github.com/sarchlab/akita/v5/tracing"
+
+	"strings"
+
 	"github.com/sarchlab/akita/v5/hooking"
 	"github.com/sarchlab/akita/v5/mem/vm"
 	"github.com/sarchlab/akita/v5/mem/vm/vmprotocol"
@@ -111,12 +115,13 @@ type Step struct {
 }
 
 type registrar struct {
-	eng *timing.SerialEngine
+	eng   *timing.SerialEngine
+	comps []naming.Named
 }
 
 func (r *registrar) GetEngine() timing.Engine          { return r.eng }
-func (r *registrar) RegisterComponent(_ naming.Named)  {}
-func (r *registrar) RegisterConnection(_ naming.Named) {}
+func (r *registrar) RegisterComponent(c naming.Named)  { r.comps = append(r.comps, c) }
+func (r *registrar) RegisterConnection(c naming.Named) { r.comps = append(r.comps, c) }
 func (r *registrar) RegisterResource(_ naming.Named)   {}
 func (r *registrar) RegisterPort(_ naming.Named)       {}
 
@@ -144,11 +149,33 @@ type World struct {
 	table map[[2]uint64]vm.Page
 	// stale maps (pid,vpage) -> physical page addresses that were replaced by an
 	// acknowledged update: no translation may return them afterwards
-	stale   map[[2]uint64]map[uint64]bool
-	Strict  bool // translation results must equal the harness table exactly (no auto allocation)
-	allocd  map[[2]uint64]vm.Page
-	MMUReset bool
+	stale      map[[2]uint64]map[uint64]bool
+	Strict     bool // translation results must equal the harness table exactly (no auto allocation)
+	allocd     map[[2]uint64]vm.Page
+	MMUReset   bool
 	OnResponse func(rspTo uint64)
+	// RespLog is what the requesters saw: requester, request ordinal, time, kind, payload.
+	RespLog []string
+}
+
+// ExtraAttach, when set, is called on every stack after it is built (tracers of other checks).
+var ExtraAttach func(w *World)
+
+// NoEngineHook builds stacks without the harness's event-counting engine hook
+// (the unobserved baseline of C33).
+var NoEngineHook bool
+
+// Domains returns the traceable library components of the stack in build order.
+func (w *World) Domains() []tracing.NamedHookable {
+	var out []tracing.NamedHookable
+
+	for _, c := range w.Reg.(*registrar).comps {
+		if d, ok := c.(tracing.NamedHookable); ok && !strings.HasPrefix(c.Name(), "Req") && c.Name() != "MemStub" && c.Name() != "Driver" {
+			out = append(out, d)
+		}
+	}
+
+	return out
 }
 
 func (w *World) fail(oracle, sig, f string, a ...any) {
